@@ -23,6 +23,8 @@ type Case struct {
 	Filter string `json:"filter,omitempty"`
 	In     string `json:"in,omitempty"`
 	Param  string `json:"param,omitempty"`
+	// Opts: bit 0 TrimBlocks, bit 1 LStripBlocks (on the set)
+	Opts int `json:"opts,omitempty"`
 }
 
 func (c *Case) ID() string {
@@ -30,6 +32,9 @@ func (c *Case) ID() string {
 		return fmt.Sprintf("ApplyFilter(%s, %s, %s)", c.Filter, c.In, c.Param)
 	}
 	s := fmt.Sprintf("%q", string(c.Src))
+	if c.Opts != 0 {
+		s += fmt.Sprintf(" opts=%d", c.Opts)
+	}
 	if len(c.Files) > 0 {
 		var ks []string
 		for k := range c.Files {
@@ -84,6 +89,8 @@ func (c *Case) Exec(t *eng.T) {
 	}
 	files := c.Files
 	set, _ := px.NewSet(files)
+	set.Options.TrimBlocks = c.Opts&1 != 0
+	set.Options.LStripBlocks = c.Opts&2 != 0
 	var tpl *pongo2.Template
 	var out px.Out
 	if len(files) > 0 && string(c.Src) == "" {
@@ -269,6 +276,45 @@ func run(r *eng.Runner) {
 					do("truncated", f[:cut])
 					if f[cut-1] != ' ' {
 						do("truncated", f[:cut]+" ")
+					}
+				}
+			}
+		}
+	}
+
+	// ---- layer 2c: whitespace options ----
+	r.Group("options", "c01.case", "documents W U W U W of two units from {set, if, for, variable, comment, comment tag, set with dashes} whose bodies and surroundings are whitespace-only or empty pieces, under all four TrimBlocks x LStripBlocks settings (text pieces that the options reduce to nothing)")
+	{
+		outer := []string{"", " ", "\n", "\t \n", "\n  "}
+		inner := []string{"", " ", "\n", " \n\t"}
+		type unit struct {
+			open, close string // close == "": no body
+		}
+		units := []unit{{"{% set x = 1 %}", ""}, {"{% if 1 %}", "{% endif %}"}, {"{% for i in slI %}", "{% endfor %}"}, {"{{ 1 }}", ""}, {"{# c #}", ""}, {"{% comment %}", "{% endcomment %}"}, {"{%- set y = 2 -%}", ""}, {"{% if 0 %}", "{% else %}{% endif %}"}}
+		render := func(u unit, body string) string {
+			if u.close == "" {
+				return u.open
+			}
+			return u.open + body + u.close
+		}
+		for _, u1 := range units {
+			for _, u2 := range units {
+				b1s, b2s := []string{""}, []string{""}
+				if u1.close != "" {
+					b1s = inner
+				}
+				if u2.close != "" {
+					b2s = inner
+				}
+				for _, b1 := range b1s {
+					for _, b2 := range b2s {
+						enum.Tuples(len(outer), 3, func(wi []int) bool {
+							src := outer[wi[0]] + render(u1, b1) + outer[wi[1]] + render(u2, b2) + outer[wi[2]]
+							for opts := 0; opts < 4; opts++ {
+								r.Do(&Case{Src: eng.Q(src), Layer: "options", Opts: opts})
+							}
+							return !r.Stopped()
+						})
 					}
 				}
 			}
